@@ -1,6 +1,7 @@
 package props
 
 import (
+	"bufio"
 	"bytes"
 	"encoding/base64"
 	"encoding/binary"
@@ -9,6 +10,7 @@ import (
 	"errors"
 	"fmt"
 	"github.com/ipld/go-ipld-prime/codec/dagcbor"
+	"io"
 	"math"
 	"os"
 	"os/exec"
@@ -17,6 +19,7 @@ import (
 	"runtime/debug"
 	"strconv"
 	"strings"
+	"testing/iotest"
 	"time"
 
 	"github.com/ipld/go-ipld-prime"
@@ -922,7 +925,7 @@ func c09Families() []scaleFamily {
 		a := buildContainer("car", nil)
 		return a.Data
 	}
-	return []scaleFamily{
+	fams := []scaleFamily{
 		{"cbor-nested-lists->token.FromSealed", 0, func(n int) []byte { return append(repeatBytes([]byte{0x81}, n-1), 0x00) }, func(in []byte) { token.FromSealed(in) }},
 		{"cbor-nested-lists->container.FromCbor", 0, func(n int) []byte { return append(repeatBytes([]byte{0x81}, n-1), 0x00) }, func(in []byte) { container.FromCbor(in) }},
 		{"cbor-nested-maps->token.FromSealed", 0, func(n int) []byte { return append(repeatBytes([]byte{0xa1, 0x61, 0x61}, n/3), 0x00) }, func(in []byte) { token.FromSealed(in) }},
@@ -1023,6 +1026,41 @@ func c09Families() []scaleFamily {
 			return []byte(base64.StdEncoding.EncodeToString(append(uv(1<<63-1), make([]byte, n)...)))
 		}, func(in []byte) { container.FromCarBase64(in) }},
 	}
+	return append(fams, c09AdvertisedFamilies()...)
+}
+
+// Readers that advertise how much they will deliver - *io.LimitedReader (N), *io.SectionReader (Size) - hand an
+// untrusted number to whoever believes it: the bytes are a valid token of a few hundred bytes, the advertised
+// size goes up to MaxInt64. Memory stays bounded by the bytes actually delivered.
+func c09AdvertisedFamilies() []scaleFamily {
+	var fams []scaleFamily
+	type adv struct {
+		name string
+		n    int64
+	}
+	for _, a := range []adv{{"2^20", 1 << 20}, {"2^31", 1 << 31}, {"2^33", 1 << 33}, {"2^36", 1 << 36}, {"2^62", 1 << 62}, {"MaxInt64", math.MaxInt64}} {
+		a := a
+		readers := []struct {
+			name string
+			mk   func(in []byte) io.Reader
+		}{
+			{"limited-reader-over-bufio", func(in []byte) io.Reader { return &io.LimitedReader{R: bufio.NewReader(bytes.NewReader(in)), N: a.n} }},
+			{"limited-reader-over-one-byte-reader", func(in []byte) io.Reader {
+				return &io.LimitedReader{R: iotest.OneByteReader(bytes.NewReader(in)), N: a.n}
+			}},
+			{"section-reader", func(in []byte) io.Reader { return io.NewSectionReader(bytes.NewReader(in), 0, a.n) }},
+		}
+		for _, rd := range readers {
+			rd := rd
+			gen := func(int) []byte { return ioToken("dlg").Sealed }
+			fams = append(fams,
+				scaleFamily{rd.name + "-advertising-" + a.name + "->token.FromSealedReader", 512, gen, func(in []byte) { token.FromSealedReader(rd.mk(in)) }},
+				scaleFamily{rd.name + "-advertising-" + a.name + "->delegation.FromSealedReader", 512, gen, func(in []byte) { delegation.FromSealedReader(rd.mk(in)) }},
+				scaleFamily{rd.name + "-advertising-" + a.name + "->container.FromCarReader", 512, func(int) []byte { return buildContainer("car", []string{"dlg"}).Data }, func(in []byte) { container.FromCarReader(rd.mk(in)) }},
+			)
+		}
+	}
+	return fams
 }
 
 type workerResult struct {
@@ -1031,6 +1069,7 @@ type workerResult struct {
 	Site        string  `json:"site,omitempty"`
 	InputLen    int     `json:"input_len"`
 	TotalAlloc  uint64  `json:"total_alloc"`
+	HeapSysGrow uint64  `json:"heap_sys_grow"`
 	PeakRSSPre  uint64  `json:"peak_rss_pre"`
 	PeakRSSPost uint64  `json:"peak_rss_post"`
 	WallMs      float64 `json:"wall_ms"`
@@ -1076,6 +1115,9 @@ func workerMain(args []string) int {
 		runtime.ReadMemStats(&m1)
 		res.PeakRSSPost = peakRSS()
 		res.TotalAlloc = m1.TotalAlloc - m0.TotalAlloc
+		if m1.HeapSys > m0.HeapSys {
+			res.HeapSysGrow = m1.HeapSys - m0.HeapSys
+		}
 		res.OK = pan == nil
 		if pan != nil {
 			res.Panic = fmt.Sprint(pan)
@@ -1175,7 +1217,7 @@ func c09ScaleSub() *engine.Sub {
 		Name:    "scaling-families-in-isolated-worker",
 		Serial:  false,
 		Replays: 3,
-		Rule:    "36 input families whose size is a parameter (nesting depth of CBOR/JSON lists, maps, tags; nested not/and/any policies, also inside a well-signed delegation; selectors with many segments; long commands, globs, DIDs; CARs with many sections; declared-length bombs for CBOR strings/arrays/maps and CAR sections), each run at sizes 1 KiB, 2 KiB, ... up to the bound, one input per worker subprocess (ulimit -v, 120 s deadline). Oracle: the process does not die, the call does not panic, it terminates before the deadline, and its peak resident memory grows by at most 128 MiB + 1024 x input size; non-trivial = all",
+		Rule:    fmt.Sprint(len(fams)) + " input families whose size is a parameter (nesting depth of CBOR/JSON lists, maps, tags; nested not/and/any policies, also inside a well-signed delegation; selectors with many segments; long commands, globs, DIDs; CARs with many sections; declared-length bombs for CBOR strings/arrays/maps and CAR sections; a valid token or container behind an *io.LimitedReader / *io.SectionReader that advertises 2^20 ... MaxInt64 bytes to the stream decoders), each run at sizes 1 KiB, 2 KiB, ... up to the bound, one input per worker subprocess (ulimit -v, 120 s deadline). Oracle: the process does not die, the call does not panic, it terminates before the deadline, and its peak resident memory, and the heap it reserves, grow by at most 128 MiB + 1024 x input size; non-trivial = all",
 		Bound: func(t string) string {
 			if t == "thorough" {
 				return "sizes 2^10..2^22 bytes (4 MiB) per family unless the family states a smaller maximum"
@@ -1219,7 +1261,10 @@ func c09ScaleSub() *engine.Sub {
 					grow = r.PeakRSSPost - r.PeakRSSPre
 				}
 				limit := uint64(c09MemConst) + uint64(c09MemFactor)*uint64(r.InputLen)
-				if grow > limit {
+				if r.HeapSysGrow > limit {
+					ctx.Outcome("memory-bound-exceeded")
+					ctx.Failf(cs, "memory-superlinear/"+fam, "%s: input of %d bytes makes the heap reserve %d MiB more (allocated %d MiB in total), bound is %d MiB", cs.Family, r.InputLen, r.HeapSysGrow>>20, r.TotalAlloc>>20, limit>>20)
+				} else if grow > limit {
 					ctx.Outcome("memory-bound-exceeded")
 					ctx.Failf(cs, "memory-superlinear/"+fam, "%s: input of %d bytes grows peak RSS by %d MiB (allocated %d MiB in total), bound is %d MiB", cs.Family, r.InputLen, grow>>20, r.TotalAlloc>>20, limit>>20)
 				} else {
@@ -1252,7 +1297,7 @@ func c09HangHandler(sub *engine.Sub, caseJSON string, limit time.Duration) {
 
 func C09() *engine.Check {
 	engine.HangHandler = c09HangHandler
-	subs := []*engine.Sub{c09ShortSub(), c09MutSub(), c09SignedSub(), c09EnvSub(), c09MatchSub(), c09GlobSub(), c09ManyStmtSub(), c09MultiSub(), c09ReencSub(), c09CmdSub(), c09ErrTextSub(), c09NestSub(), c09ScaleSub(), c09ConcSub(), concRaceSub("C09")}
+	subs := []*engine.Sub{c09ShortSub(), c09MutSub(), c09SignedSub(), c09EnvSub(), c09MatchSub(), c09GlobSub(), c09ManyStmtSub(), c09MultiSub(), c09ReencSub(), c09CmdSub(), c09ErrTextSub(), c09NestSub(), c09AuthSub(), c09ScaleSub(), c09ConcSub(), concRaceSub("C09")}
 	for _, s := range subs {
 		if s.Name == "scaling-families-in-isolated-worker" {
 			s.HangLimit = 20 * time.Minute // its inputs run in worker processes with their own deadlines and re-runs
